@@ -270,6 +270,36 @@ func c16Enum(thorough bool) mc.Enum {
 			return cr
 		}})
 	}
+	// (f) a starter name handed out by the free-name message, still inside its free (locked) term: its owner pays to
+	// extend it, or another account tries to register it
+	for _, years := range []int64{1, 2} {
+		for _, who := range []string{"B", "A"} {
+			for _, wait := range []int{1, 3} {
+				years, who, wait := years, who, wait
+				e.Cases = append(e.Cases, mc.Case{Desc: fmt.Sprintf("starter|owner=B|+%d blocks|%s|%d", wait, who, years), Run: func(env world.Env) mc.CaseResult {
+					w := env.W()
+					var h int64
+					var name string
+					for i := 0; i < 12; i++ { // past the heights whose starter names are seeded as paid names (the two seams start at different heights)
+						h = env.Ctx().BlockHeight()
+						name = rnstypes.MakeName(int(h), h)
+						if _, taken := w.App.RnsKeeper.GetNames(env.Ctx(), name, "jkl"); !taken && i >= 1 {
+							break
+						}
+						env.NextBlock(6 * time.Second)
+					}
+					mustOK(env.Deliver(rnstypes.NewMsgInit(w.A("B").Bech)), "Init")
+					if n, ok := w.App.RnsKeeper.GetNames(env.Ctx(), name, "jkl"); !ok || n.Value != w.A("B").Bech {
+						panic("harness: Init did not hand out the starter name of its height")
+					}
+					for i := 0; i < wait; i++ {
+						env.NextBlock(6 * time.Second)
+					}
+					return c16Register(env, who, name+".jkl", years)
+				}})
+			}
+		}
+	}
 	// (c) register twice in a row (renewal of a just-registered name, takeover attempt of a just-registered name)
 	for _, y1 := range []int64{1, 2} {
 		for _, y2 := range []int64{1, 5} {
@@ -293,7 +323,7 @@ func c16Enum(thorough bool) mc.Enum {
 func init() {
 	CaseReplayers["C16/register"] = func(r *mc.Run, c string) { r.ReplayCase(c16Enum(true), c) }
 	Props["C16"] = Prop{Level: "exploration", Run: func(r *mc.Run, tier string) {
-		r.Rules = append(r.Rules, "full product: names of length 1..6 x {jkl,ibc} x case/space variants (and 12 labels that contain the letters of a top-level domain) x years {1,2,5} x registrant {A,B,under-funded P}; every genesis-seeded name (expired long ago / a year ago / expiring in 3 blocks / live) x block offset 0..4 x {owner, other} x years; register-twice sequences. Non-trivial = accepted registrations; distinct by outcome class (accepted|rejected / fresh|live|boundary|expired x own|other)")
+		r.Rules = append(r.Rules, "full product: names of length 1..6 x {jkl,ibc} x case/space variants (and 12 labels that contain the letters of a top-level domain) x years {1,2,5} x registrant {A,B,under-funded P}; every genesis-seeded name (expired long ago / a year ago / expiring in 3 blocks / live) x block offset 0..4 x {owner, other} x years; register-twice sequences; a starter name from the free-name message extended by its owner or tried by another account inside its free term. Non-trivial = accepted registrations; distinct by outcome class (accepted|rejected / fresh|live|boundary|expired x own|other)")
 		r.Assumptions = append(r.Assumptions, "yearly price table frozen in the harness (10M ujkl jkl, 50M ibc; x24,12,6,3,1 by length)", "height == Expires unspecified", "chain starts at height 12,000,000 so that multi-year expiries lie in the past")
 		r.AddEnum(c16Enum(true), workers(), time.Time{})
 	}}
